@@ -66,7 +66,8 @@ def BState.init (c : BCtx) : BState :=
   { diff := emptyDiff, consumed := zeros c.maxUnits, block := [], results := [], restorable := [],
     stop := false, failed := false }
 
-/-- main goroutine over one streamed batch: size cap (restore the rest of the batch), duplicate skip.
+/-- main goroutine over one streamed batch: size cap (restore the rest of the batch), duplicate skip,
+drop of a tx whose `StateKeys` returns an error ("should not happen": checked at admission).
 Returns the txs handed to the executor and the restored tail. -/
 def admitBatch (c : BCtx) : Nat → List Tx → List Tx × List Tx
   | _, [] => ([], [])
@@ -75,7 +76,7 @@ def admitBatch (c : BCtx) : Nat → List Tx → List Tx × List Tx
     if size' > c.targetTxsSize then ([], m :: rest)
     else
       let r := admitBatch c size' rest
-      if c.seen m.id then r else (m :: r.1, r.2)
+      if c.seen m.id then r else if !m.keysOk then r else (m :: r.1, r.2)
 
 /-- one executor task of the builder (closure of `e.Run` in `BuildBlock`) -/
 def procTx (c : BCtx) (s : BState) (x : Tx × Bool) : BState :=
@@ -168,6 +169,8 @@ def verify (c : BCtx) (b : Built) : Option Verified :=
   | some ph, some pt =>
     if b.height ≠ ph + 1 then none
     else if !replayFree c b.txs then none
+    -- executeTxs: `tx.StateKeys` error → `f.Stop(); e.Stop(); return err`
+    else if b.txs.any (fun t => !t.keysOk) then none
     else if b.ts < pt + c.minBlockGap then none
     else if b.txs.isEmpty && b.ts < pt + c.minEmptyBlockGap then none
     else
